@@ -16,10 +16,10 @@ CHECKS = {
          "All (start,end) pairs in and out of range, including every integer where channels*index wraps mod 2^64, on every small root and nested to depth 2 (thorough 3), judged by the slice rule in big integers and by two-way aliasing over the child's whole capacity; plus sparse ranges on roots of 17..1200 frames and 9..65 channels, 400 windows of one parent kept alive and re-inspected, small windows of a 1.2-million-sample parent, head/middle/tail windows of parents of more than 2^24 samples, and 2^15..2^18 channels.",
          "small scope: 13 types, C<=4, K<=3 (thorough 4); storage observed through root.Slice(0,K)"),
  "C03": (MC, "seqx", "explicit enumeration of all append histories up to a depth over a source menu, real views in lock-step with a slices reference model; directed multi-destination histories on large storages",
-         "Every sequence of up to 2 (thorough 3) appends with sources {independent, self, second header, other windows of the same storage} on every small destination window; after every step all live views and all storages are compared with the model, then every view is stamped to prove sharing/independence. Large roots (8..300 frames) with pairs of appends, directed histories with several growing destinations and surviving views on storages up to 9000 (and 2^15..2^18) frames, and buffers of special values (both zeros, infinities, extremes, integer bounds) appended in place and growing, compared by bit pattern, for all 46 element types of the facade; empty destinations taking over sources of 3..140000 frames; long appends repeated under GOMAXPROCS 1, 2, 3 and 48.",
+         "Every sequence of up to 2 (thorough 3) appends with sources {independent, self, second header, other windows of the same storage} on every small destination window; after every step all live views and all storages are compared with the model, then every view is stamped to prove sharing/independence. Large roots (8..300 frames) with pairs of appends, directed histories with several growing destinations and surviving views on storages up to 9000 (and 2^15..2^18) frames, and buffers of special values (both zeros, infinities, extremes, integer bounds) appended in place and growing, compared by bit pattern, for all 46 element types of the facade; empty destinations taking over sources of 3..140000 frames; long appends repeated under GOMAXPROCS 1, 2, 3 and 48; large configurations also with 5, 6, 7, 10 and 12 channels.",
          "small scope: 13 types, C<=3, P<=3 (thorough 4); capacity after growth is an environment answer checked only against the stated constraint"),
  "C04": (MC, "seqx", "exhaustive exploration of the Len state machine of one buffer: every history of k AppendSample calls on every shape against the slices model, incl. thousands of calls on long buffers",
-         "Every window shape (C<=4, P<=4) and every number of calls from 0 to spare capacity + 40 (thorough + 600), comparing the buffer, a pre-existing alias and the whole parent storage with the model after every call; every channel count 5..70 on short buffers; 16/100/1500-frame storages; nearly full windows of buffers of more than 2^24 samples filled to the end and beyond; every special value appended over a cell holding every other one (bit patterns, 46 element types); windows that outlive their parent across forced garbage collections, then allocations of the same shape; a second header over the same window (parent.Slice(0, Length())) whose appends must not move the parent.",
+         "Every window shape (C<=4, P<=4) and every number of calls from 0 to spare capacity + 40 (thorough + 600), comparing the buffer, a pre-existing alias and the whole parent storage with the model after every call; every channel count 5..70 on short buffers; 16/100/1500-frame storages; nearly full windows of buffers of more than 2^24 samples filled to the end and beyond; every special value appended over a cell holding every other one (bit patterns, 46 element types); windows that outlive their parent across forced garbage collections, then allocations of the same shape; a second header over the same window (parent.Slice(0, Length())) whose appends must not move the parent; per-channel views taken before the calls, which must follow the growing length and read the appended values.",
          "13 types in the small scope; 3-4 types for the long ones"),
  "C05": (EX, "seqx", "bounded-exhaustive enumeration of source/destination window pairs for all 169 instantiations with a differential oracle (same function on a 1x1 buffer, two different destination pre-fills), context passes and a reverse-order process",
          "All 169 instantiations, every pair of small source/destination windows (shorter/equal/longer, partly filled frames; large and many-channel shapes sparsely) with a boundary value alphabet: result k must equal the single-sample result whatever the destination held, everything outside the common prefix untouched, return = min per-channel length. 'Depends only on sample k and the two formats' is additionally checked against neighbours, alignment, tail position, the instantiation used before (all 169^2 ordered pairs) the order of use in the process (second process in reverse order), and in buffers of 2^20+3, 2^22+7 and 2^24+5 samples ending in a partly filled frame; named element types over all 13 built-in types take part; sources built by other routes (filled through windows only, recycled by a pool, previously a conversion's destination), a NaN among the neighbours, buffers holding one value throughout, source or destination 37 frames longer, destinations already holding +0 / -0, and long conversions under GOMAXPROCS 1, 2, 3 and 48.",
@@ -37,16 +37,16 @@ CHECKS = {
          "All 22 fixed->float instantiations; every 8/16-bit code (8-bit domains repeated to fill long buffers), every 32-bit code in the thorough tier; range, reference levels, accuracy, (strict) order and the round trip through the real FloatAsSigned/FloatAsUnsigned. Context passes with named types, buffers up to 2^24+5 samples, sources of unusual provenance, uneven lengths, GOMAXPROCS 1, 2, 3 and 48. Known findings are keyed by explicit code ranges.",
          "64-bit sources by alphabet/lattice only; accuracy tolerance reads 'float rounding' relative to full scale"),
  "C10": (MC, "seqx", "explicit-state breadth-first search over get/use/put histories on the real PoolAllocator, sync.Pool replaced by a controlled shim whose answers are choice points; conformance re-run on the real sync.Pool; long linear histories",
-         "Every history up to depth 5 (13 types) / 6 (3 types) [thorough 6 / 9] over {get with every pool answer, appendSample, growing append, stamp whole capacity, set first/at-length/last, reslice from frame 0, put, copy the allocator value (then Get/Put alternate between copy and original)} with up to 3 buffers outstanding on 7 small allocator shapes and 4 long ones; every Get is judged for shape, bit depth, zero over the whole capacity, distinct handle and disjoint storage. States are deduplicated by a canonical model key that keeps what pooled items held; 300-round linear histories without deduplication (with forced garbage collections) drive state the implementation might keep across calls; pools of up to 90000 samples.",
+         "Every history up to depth 5 (13 types) / 6 (3 types) [thorough 6 / 9] over {get with every pool answer, appendSample, growing append, stamp whole capacity, set first/at-length/last, reslice from frame 0, put, copy the allocator value (then Get/Put alternate between copy and original)} with up to 3 buffers outstanding on 7 small allocator shapes and 4 long ones; every Get is judged for shape, bit depth, zero over the whole capacity, distinct handle and disjoint storage. States are deduplicated by a canonical model key that keeps what pooled items held; 300-round linear histories without deduplication (with forced garbage collections) drive state the implementation might keep across calls; pools of up to 90000 samples; negative-zero stamps over the whole capacity (freshness is judged by bit pattern); short directed histories for all 46 element types and for pools of 255..65538 channels.",
          "sync.Pool is over-approximated by the shim (any pooled item or New); histories of two element types are re-run on the real sync.Pool; use-after-put / double-put excluded by the property"),
  "C11": (MC, "schedx", "stateless schedule exploration (all interleavings with state-key pruning / preemption-bounded) of real goroutines under a race-detector-invisible baton; scheduling points at harness steps, pool, mutex, WaitGroup and sync/atomic operations and at the library's own go statements (which become threads of the explorer); pool answers as choice points; Go race detector as happens-before monitor on each explored schedule",
          "G goroutines x M get/check/stamp/verify/put cycles on one PoolAllocator (shared by pointer and as copies, copied before or after a warm-up Put; 2-4-sample and 1024-5000-sample buffers, one of 2^21+5 samples; configurations in which holders keep only a window of their buffer and force a garbage collection while holding it, or put back a shorter window; float holders also write -0.0; the library is told GOMAXPROCS=4 of 16 CPUs): all interleavings for (2,1),(2,2),(3,1) [thorough also (3,2),(4,1)], deviation bound 2 above; oracles: exclusive ownership (identity and stamps), freshness, and no data race (bounded pass in the -race build; a racy canary proves the monitor live).",
          "interleaving at scheduling points (harness steps, every shim operation incl. atomics and WaitGroup, go statements, after Put); goroutines of the library are explorer threads while the rewrite of its go statements compiles and nothing blocks outside sync primitives, else they run outside the explorer (reported on stderr); finer-grained conflicts are the race monitor's job; the shim provides only Put(x) happens-before the Get returning x; GOMAXPROCS=1 by construction"),
  "C12": (MC, "seqx", "explicit-state breadth-first search over view histories (replay on fresh real buffers + one operation), states deduplicated by a canonical key of the slices reference model; long linear and directed large-storage histories",
-         "Every history up to depth 5 (small shapes) / 3 (full alphabet: capacity <= 4 frames, <= 6 views, 3 channels) / 4 (40-frame buffers, sparse ranges) [thorough 6-7 / 4 / 5] over {alloc, slice, append incl. self, appendSample, write, set}; after every transition every live view and every storage is compared with the model. 400-step linear histories and directed histories on storages up to 9000 frames (growth with surviving views, recycled blocks, tail windows) run without deduplication.",
+         "Every history up to depth 5 (small shapes) / 3 (full alphabet: capacity <= 4 frames, <= 6 views, 3 channels) / 4 (40-frame buffers, sparse ranges) [thorough 6-7 / 4 / 5] over {alloc, slice, append incl. self, appendSample, write, set}; after every transition every live view and every storage is compared with the model. 400-step linear histories and directed histories on storages up to 9000 frames (growth with surviving views, recycled blocks, tail windows) run without deduplication; every special value (both zeros, NaN, infinities, bounds) written with SetSample over a cell holding every other one, compared by bit pattern through every view.",
          "values are tokens (data-independence re-checked without value canonicalisation); growth capacity is an environment answer; Append onto a partly filled last frame is outside every property's domain"),
  "C13": (EX, "seqx", "bounded-exhaustive enumeration of allocator shapes x 46 element types (13 built-in, 13 named, 13 further named ones that share one name, 7 whose names end in misleading digits), ordered pairs of allocations and a long run of live allocations",
-         "Every (C,L,K) of the stated grid (C up to 100, K up to 1025, thorough 20000) for the 13 built-in and 33 named element types; shape, zeroed capacity, bit depth, independence of every ordered pair of 10 shapes, 600 allocations in a row that are kept alive and re-inspected, and windows kept across forced garbage collections while their parents are dropped, followed by allocations of the same shape.",
+         "Every (C,L,K) of the stated grid (C up to 1024, K up to 1025, thorough 20000; 65535 .. 2^17+1 channels with K <= 3) for the 13 built-in and 33 named element types; shape, zeroed capacity, bit depth, independence of every ordered pair of 10 shapes, 600 allocations in a row that are kept alive and re-inspected, and windows kept across forced garbage collections while their parents are dropped, followed by allocations of the same shape.",
          "grid, not every size"),
  "C14": (EX, "seqx", "bounded-exhaustive enumeration of parents x channels x indices with whole-storage diff; every per-channel length 0..70000 for the shape methods; views used after 1..700 appends to the parent",
          "Every channel of every small parent (whole buffers, windows, partly filled last frames; up to 8 channels, plus 9/17/65 channels and 1100-frame windows): read, BufferIndex (with the view's own and with foreign channel numbers), write (whole storage diffed), read back; special values through every view by bit pattern; the view's Length/Capacity/Channels for every length up to 70000; a view taken once and used after each of 700 appends; windows of 2^24-3 .. 2^24+45 samples for every channel count 1..8 and (thorough) parents of 2^31+19 samples: shape and reads/writes/positions at the ends and around 2^24/C, 2^31/C.",
@@ -61,10 +61,10 @@ CHECKS = {
          "Standard rates, every integer rate 1..10^6, the 1/8 Hz lattice, and r +- 10^-k, r(1 +- 2^-k), r/1.001 ... for 12 whole rates; dense count windows, the 24 h edge, neighbourhoods of every rounding tie and of every argument where d*f or n*10^9 crosses 2^31..2^64; half-unit accuracy, monotonicity and the count->duration->count round trip.",
          "continuum domain: bounded windows only (exhaustive:false)"),
  "C18": (EX, "seqx", "exhaustive enumeration of operation x instantiation x branch-selecting shape with an allocation monitor (testing.AllocsPerRun) evaluated on every configuration",
-         "Every steady-state operation for 13 types / 169 pairs x C in {1,2,8} x lengths {0,1,64,1100[,4096]} x plain/window x slice-length class, pools up to 8x4096 and 1x20000 samples for every shape (through a pointer and through by-value copies) and of 160000 .. 2^24+5 samples (up to 128 MiB) in addition; same-type conversions also in place and between overlapping windows; the append that fills the capacity exactly; the very first AppendSample on a fresh full buffer counted without warm-up; 0 allocations required (Slice <= 1); a non-zero reading is re-measured 5x (minimum).",
+         "Every steady-state operation for 13 types / 169 pairs x C in {1,2,8} x lengths {0,1,64,1100[,4096]} x plain/window x slice-length class, pools up to 8x4096 and 1x20000 samples for every shape (through a pointer and through by-value copies) and of 160000 .. 2^24+5 samples (up to 128 MiB) in addition; same-type conversions also in place and between overlapping windows; the append that fills the capacity exactly; the very first AppendSample on a fresh full buffer counted without warm-up; per-channel views of a buffer with a partly filled last frame; 0 allocations required (Slice <= 1); a non-zero reading is re-measured 5x (minimum).",
          "plain build (no overlay): unmodified package and real sync.Pool; allocation sites are static so instantiation x branch enumeration covers them; sizes are a finite list"),
  "C19": (MC, "schedx", "stateless schedule exploration of readers and disjoint-window writers at operation granularity (all interleavings with state-key pruning), differential oracle against the sequential schedule, Go race detector as happens-before monitor",
-         "R readers running every read-only entry point and W writers confined to their own Slice over one shared buffer (6 frames; also a partly filled last frame, 9 channels, 600 frames): all interleavings for (R,W) in {(2,0),(3,0),(1,1),(2,2),(1,2)} [thorough + (4,0),(3,2),(0,3),(2,3)]; every thread's observations and the final contents must equal the sequential run; writers pass more data than their window holds and share one striped input table; shared sources hold negative values too; all instantiations with two concurrent conversions (one destination a frame shorter) (6, 600 frames; 70000 samples for one instantiation per function with the library told GOMAXPROCS=2 of 16, its goroutines being explorer threads); bounded pass in the -race build reports conflicting accesses.",
+         "R readers running every read-only entry point and W writers confined to their own Slice over one shared buffer (6 frames; also a partly filled last frame, 9 channels, 600 frames): all interleavings for (R,W) in {(2,0),(3,0),(1,1),(2,2),(1,2)} [thorough + (4,0),(3,2),(0,3),(2,3)]; every thread's observations and the final contents must equal the sequential run; writers pass more data than their window holds and share one striped input table; shared sources hold negative values and a NaN too; readers slice across the partly filled last frame; buffers that were grown by Append before being shared; all instantiations with two concurrent conversions (one destination a frame shorter) (6, 600 frames; 70000 samples for one instantiation per function with the library told GOMAXPROCS=2 of 16, its goroutines being explorer threads); bounded pass in the -race build reports conflicting accesses.",
          "operation granularity is sufficient only together with the race monitor (conflict-free operations are both-movers); 3-4 element types"),
  "C20": (EX, "seqx", "exhaustive enumeration of degenerate allocators x every exported operation",
          "Every allocator with a zero among Channels/Length/Capacity (values 0..3; plus 9/65 channels and 1100/5000-frame capacities) for 13 types through every exported function and method that has a valid argument there, incl. all 169 conversions on every degenerate shape, appends of empty buffers with capacities up to 2^25+1 samples, a zero-capacity pool whose first buffer is appended to and kept while a second is taken, zero-length windows of a non-empty buffer converted from, into and with that buffer, zero-channel allocators with Length > Capacity, and ChannelLength with 0 channels.",
